@@ -1972,6 +1972,7 @@ terrorNotEnoughExports(Stab stab, AbSyn ab, TPoss tposs, Bool onlyWarning)
 	terrorClip =  comsgOkAbbrev() ? CLIP : ABPP_UNCLIPPED;
 
 	obuf = bufNew();
+	bufPrintf(obuf, "%s", comsgString(ALDOR_D_TinMissingExports));
 
 	if (!comsgOkDetails()) goto done;
 	
@@ -2001,8 +2002,6 @@ terrorNotEnoughExports(Stab stab, AbSyn ab, TPoss tposs, Bool onlyWarning)
 	}
 	
 	if (msymes != listNil(Syme)) {
-		String fmt = comsgString(ALDOR_D_TinMissingExports);
-		bufPrintf(obuf, "%s", fmt);
 		terrorPrintSymeList(obuf, "", msymes);
 	}
 
